@@ -315,3 +315,12 @@ From DRF Require Import Gen.StateSites Proofs.StateSitesProofs.
 Theorem C08_no_state_outside_the_modelled_objects : state_sites_rf_python = @nil string /\ state_sites_listing = @nil string.
 Proof. repeat split; first [exact no_state_outside_objects_rf_python | exact no_state_outside_objects_listing]. Qed.
 Print Assumptions C08_no_state_outside_the_modelled_objects.
+
+(* ---- T18: the block merge of read / get_continuous_blocks is the state machine regenerated from
+   DigitalRFReader._combine_blocks, run over the pieces sorted by start sample *)
+From DRF Require Import Gen.CombineGen Proofs.CombineGenProofs.
+Theorem C08_block_merge_is_the_regenerated_code :
+  (forall (V : Type) (bs : list (@block V)), Runs.combine bs = gen_combine (@app V) (fun d => Z.of_nat (length d)) bs) /\
+  (forall bs, Runs.combine_len bs = gen_combine Z.add (fun x => x) bs).
+Proof. split; [exact @combine_blocks_regen | exact combine_len_regen]. Qed.
+Print Assumptions C08_block_merge_is_the_regenerated_code.
